@@ -415,6 +415,8 @@ macro_rules! impl_cache_processor {
                     } => {
                         let cost = self.calculate_internal_cost(cost);
                         let (victim_sets, added) = self.policy.add(key, cost);
+                        #[cfg(transparencies_stretto_verif)]
+                        crate::verif_env::yp::yield_point(crate::verif_env::yp::Y::ItemAfterPolicyAdd);
                         if added {
                             self.store.try_insert(key, value, conflict, expiration)?;
                             self.track_admission(key);
